@@ -63,13 +63,69 @@ def species_pool(rng, thorough):
     return pool
 
 
+
+class RealMix:
+    """real species with prescribed densities: what functions_transport.Qij_mix needs"""
+
+    def __init__(self, sps, nd, T, x0=None, P=101325.0):
+        self.species, self.T, self._nd = tuple(sps), T, np.array(nd, dtype=float)
+        # the other visible inputs of an LTE mixture, so that code keyed on them runs as it would on the real object
+        self.x0 = list(x0) if x0 is not None else [1.0 / len(sps)] * len(sps)
+        self.P = P
+        self.gfe_initial_particles, self.gfe_rtol, self.gfe_max_iter = 1e20, 1e-10, 1000
+
+    def calculate_composition(self):
+        return self._nd
+
+
+def mix_matrix_check(run, rng, pool, okd, broken, thorough):
+    """functions_transport.Qij_mix (the matrix every transport routine consumes) against the pairwise model kernel, entry by entry, for
+    mixtures of real species; each mixture is evaluated twice and then once more in another listing order in the same process
+    (the matrix must be a function of the current mixture only, attached to the right species)."""
+    found = None
+    usable = [sp for sp in pool if sp.name == "e" or sp.charge_number != 0
+              or (getattr(sp, "electron_cross_section", None) is not None and getattr(sp, "effective_electrons", None) is not None)]
+    heavy = [sp for sp in usable if sp.name != "e"]
+    el = next(sp for sp in usable if sp.name == "e")
+    for _ in range(12 if thorough else 4):
+        sps = rng.sample(heavy, rng.randint(2, 5)) + [el]
+        nd = [10 ** rng.uniform(18, 23) for _ in sps]
+        T = rng.choice([1000.0, 5000.0, 12000.0, 25000.0])
+        perm = list(range(len(sps) - 1))
+        rng.shuffle(perm)
+        perm.append(len(sps) - 1)
+        for (l, s) in rng.sample(tr.ORDERS, 6 if thorough else 3):
+            try:
+                x0 = [k + 1.0 for k in range(len(sps))]
+                M1 = np.array(ft.Qij_mix(RealMix(sps, nd, T, x0), l, s), dtype=float)
+                M2 = np.array(ft.Qij_mix(RealMix(sps, nd, T, x0), l, s), dtype=float)
+                Mp = np.array(ft.Qij_mix(RealMix([sps[k] for k in perm], [nd[k] for k in perm], T, [x0[k] for k in perm]), l, s), dtype=float)
+            except Exception:  # noqa: BLE001  (species without data for this pair: rejected input)
+                continue
+            run.count(1, distinct_key=("mix", tuple(sp.name for sp in sps), l, s, T))
+            exp = np.array([[impl_Q(si, ni, sj, nj, l, s, T) for sj, nj in zip(sps, nd)] for si, ni in zip(sps, nd)], dtype=float)
+            names = [sp.name for sp in sps]
+            bad = None
+            if not np.array_equal(M1, M2):
+                bad = "two evaluations of the same mixture differ"
+            elif np.max(np.abs(M1 - exp) / np.maximum(np.abs(exp), 1e-300)) > 1e-12:
+                i, j = np.unravel_index(int(np.argmax(np.abs(M1 - exp) / np.maximum(np.abs(exp), 1e-300))), M1.shape)
+                bad = f"entry ({names[i]},{names[j]}) = {M1[i, j]!r} is not the pair integral {exp[i, j]!r}"
+            elif np.max(np.abs(Mp - M1[np.ix_(perm, perm)]) / np.maximum(np.abs(M1[np.ix_(perm, perm)]), 1e-300)) > 1e-12:
+                bad = "the matrix of the re-listed mixture is not the re-indexed matrix"
+            if bad and found is None:
+                found = {"kind": "input", "what": f"Qij_mix(l={l}, s={s}, T={T}) for {names}: {bad}", "species": [sc_full(sp) for sp in sps], "nd": nd,
+                         "perm": perm, "l": l, "s": s, "T": T}
+    return found
+
+
 def check(run):
     rng = random.Random(run.seed)
     thorough = run.tier == "thorough"
     run.cov["rule"] = ("ordered pairs drawn from the 17 shipped species, the electron and synthetic atoms / ions / negative ions / molecules; all 16 consumed orders; "
                        "T in {300, 400, 1000, 3000, 10000, 30000} K; densities 1e16..1e24 (electron-electron pairs with equal densities); for each: extracted model vs "
                        "implementation (value and class), symmetry, finiteness, positivity (Coulomb when the logarithm exceeds 2), documented class, temperature-derivative recursion of the unfitted orders (own step 0.25 K); "
-                       "electron-neutral closed form vs quadrature of its cross-section law; distinct = (species pair, order, T)")
+                       "electron-neutral closed form vs quadrature of its cross-section law; Qij_mix matrices of real mixtures vs the pair integrals, evaluated twice and in a second listing order; distinct = (species pair, order, T)")
     run.cov["trusted_base"] = common.TRUSTED_COMMON + [
         "Coq-Interval for ln 2 > 0.69 and pi^2/6 > partial sums of 1/k^2 (adds no axioms beyond the Reals ones)",
         "scipy.special.gamma is a parameter G of the real instance; hypotheses G > 0 where used",
@@ -172,6 +228,8 @@ def check(run):
             if common.relerr(v, qv) > 1e-8 and found is None:
                 found = {"kind": "input", "what": f"Qe({sp.name}, s={s}, T={T}) = {v!r} but the thermal average of its cross-section law is {qv!r}",
                          "species": [sc_full(sp)], "s": s, "T": T}
+    fm = mix_matrix_check(run, rng, pool, okd, broken, thorough)
+    found = found or fm
     if found:
         found["broken"] = broken
         run.violation(found)
